@@ -498,6 +498,15 @@ def ref_ens(pi, Q, t):
     return float(np.asarray(pi, float) @ ref_expm(A, t)[:n, n])
 
 
+def _eig_condition(Q):
+    """circumstance tag: is the eigenvector matrix of Q ill conditioned (the integrating eigen route then loses digits)"""
+    try:
+        c = float(np.linalg.cond(np.linalg.eig(np.asarray(Q, float))[1]))
+    except np.linalg.LinAlgError:
+        c = math.inf
+    return "ill-conditioned-eigenvectors" if not c <= 1e6 else "well-conditioned"
+
+
 def _norm_inf(m):
     return float(np.abs(m).sum(axis=1).max())
 
@@ -793,7 +802,7 @@ def run_point(s: Soft, sm, info, bins, pt) -> bool:
                         s.check(abs(float(got) - t) <= 1e-8 * ke + 1e-6 * t * t, f"ens/equals-length/{etag}", f"{info['label']} edge {e}: ENS {got!r}, length {t!r}")
                     else:
                         want = ref_ens(pi, Q, t)
-                        s.check(abs(float(got) - want) <= 1e-8 * ke + 1e-6 * t * t, "ens/equals-integral/general", f"{info['label']} edge {e} length {t!r} ||Qt|| {ke:.3g}: ENS {got!r}, pi.int exp(Qs)ds.(-diag Q) = {want!r}")
+                        s.check(abs(float(got) - want) <= 1e-8 * ke + 1e-6 * t * t, f"ens/equals-integral/general/{_eig_condition(Q)}", f"{info['label']} edge {e} length {t!r} ||Qt|| {ke:.3g}: ENS {got!r}, pi.int exp(Qs)ds.(-diag Q) = {want!r}")
             s.cls("ens:" + ("trivial" if info["stationary_class"] else "integrated"))
 
     # ---- uncalibrated Q: documented as Q * length (* bin rate), expm of which is the psub
@@ -968,6 +977,7 @@ def exec_expm(case) -> Soft:
     import scipy.linalg
     from cogent3.evolve.substitution_calculation import ExpDefn
     from cogent3.maths import matrix_exponentiation as me
+    from cogent3.maths.matrix_exponential_integration import expected_number_subs
     from numpy.linalg import LinAlgError
 
     s = Soft("C05/expm/")
@@ -1023,6 +1033,12 @@ def exec_expm(case) -> Soft:
         ok, P = s.call("SemiSymmetric", lambda: me.SemiSymmetricExponentiator(pi.copy(), Q.copy())(t))
         if ok:
             compare("SemiSymmetric", P)
+    # the integral behind get_lengths_as_ens: expected number of substitutions from pi over time t
+    ok, got = s.call("expected_number_subs", expected_number_subs, pi.copy(), Q.copy(), t)
+    if ok:
+        ens = ref_ens(pi, Q, t)
+        r = abs(float(got) - ens)
+        s.check(r <= 1e-8 * k + 1e-6 * t * t * max(1.0, _norm_inf(Q)), f"ens/equals-integral/{_eig_condition(Q)}", f"{kind} n={n} eps={case['eps']:.3g} t={t!r} ||Qt||={k:.3g}: expected_number_subs {float(got)!r}, pi.int exp(Qs)ds.(-diag Q) = {ens!r}")
     # the back-ends as selected by the likelihood machinery
     for setting in EXPMS:
         ok, make = s.call(f"ExpDefn/{setting}", lambda: ExpDefn.calc(None, setting))
